@@ -5,6 +5,7 @@ package main
 //   E2  must-precede / must-follow / always-performs summaries on the CFG
 
 import (
+	"fmt"
 	"go/constant"
 	"go/token"
 	"go/types"
@@ -477,11 +478,72 @@ func stripConv(v ssa.Value) ssa.Value {
 						continue
 					}
 				}
+				if ia, ok := x.X.(*ssa.IndexAddr); ok {
+					if c := canonElem(x, ia); c != nil && c != ssa.Value(x) {
+						return c
+					}
+				}
 			}
 		}
 		return v
 	}
 	return v
+}
+
+var canonElemMemo = map[*ssa.Function]map[string]ssa.Value{}
+
+// canonElem: loads s[k] (constant k) of a slice of inode pointers that is not
+// stored into inside the function denote the same value; the first such load
+// (in block order) is the representative.
+func canonElem(ld *ssa.UnOp, ia *ssa.IndexAddr) ssa.Value {
+	k, isk := constInt(ia.Index)
+	if !isk || !isNamed(ld.Type(), "/inode", "Inode") {
+		return nil
+	}
+	fn := ld.Parent()
+	if fn == nil {
+		return nil
+	}
+	m, ok := canonElemMemo[fn]
+	if !ok {
+		m = map[string]ssa.Value{}
+		canonElemMemo[fn] = m
+		written := map[ssa.Value]bool{}
+		for _, b := range fn.Blocks {
+			for _, in := range b.Instrs {
+				if st, ok := in.(*ssa.Store); ok {
+					if ia2, ok := st.Addr.(*ssa.IndexAddr); ok {
+						written[stripConv(ia2.X)] = true
+					}
+				}
+			}
+		}
+		for _, b := range fn.DomPreorder() {
+			for _, in := range b.Instrs {
+				u, ok := in.(*ssa.UnOp)
+				if !ok || u.Op != token.MUL {
+					continue
+				}
+				ia2, ok := u.X.(*ssa.IndexAddr)
+				if !ok {
+					continue
+				}
+				k2, isk2 := constInt(ia2.Index)
+				if !isk2 || !isNamed(u.Type(), "/inode", "Inode") {
+					continue
+				}
+				base := stripConv(ia2.X)
+				if written[base] {
+					continue
+				}
+				key := fmt.Sprintf("%p|%d", base, k2)
+				if _, ok := m[key]; !ok {
+					m[key] = u
+				}
+			}
+		}
+	}
+	return m[fmt.Sprintf("%p|%d", stripConv(ia.X), k)]
 }
 
 var singleStoreMemo = map[*ssa.Alloc]ssa.Value{}
